@@ -137,7 +137,12 @@ type c09Case struct {
 	Iei    uint8  `json:"prior_iei"`
 	Len    uint16 `json:"prior_len"`
 	ArgHex string `json:"arg_hex"` // value as big-endian bytes (integers) or the byte string (arrays / slices)
+	Alias  int    `json:"arg_is_window_of_own_buffer_at_offset_plus_1,omitempty"` // the slice handed to Set is element.Buffer[o:o+len(arg)] itself
 }
+
+// c09AliasOff >= 0: the slice argument handed to the setter is a window of the element's own Buffer at that offset
+// (its octets are those of ArgHex at call time); the setter must behave as if it had been given a copy.
+var c09AliasOff = -1
 
 func c09FindType(name string) *gen.TypeInfo {
 	for i := range gen.Types {
@@ -299,6 +304,8 @@ func c09CaseRun(c *core.Ctx, in c09Case) {
 		c.Note("replay: " + in.Type + "." + in.Field + ": " + why)
 		return
 	}
+	c09AliasOff = in.Alias - 1
+	defer func() { c09AliasOff = -1 }()
 	c09Exec(c, p, unhex(in.Prior), in.Iei, in.Len, unhex(in.ArgHex), func() c09Case { return in })
 }
 
@@ -429,6 +436,9 @@ func c09Exec(c *core.Ctx, p *c09Pair, prior []byte, iei uint8, ln uint16, arg []
 		return
 	}
 	// Set
+	if c09AliasOff >= 0 && p.argT.Kind() == reflect.Slice && e.kind == "buf" && c09AliasOff+len(arg) <= e.store.Len() {
+		av = e.store.Slice(c09AliasOff, c09AliasOff+len(arg)).Convert(p.argT)
+	}
 	doSet := func() { p.set.Call([]reflect.Value{av}) }
 	if p.setU8 != nil {
 		doSet = func() { p.setU8(arg[len(arg)-1]) }
@@ -937,6 +947,34 @@ func c09Pair1(c *core.Ctx, p *c09Pair, thorough bool) {
 			}
 		}
 	}
+	// aliased arguments: the slice handed to a setter is a window of the element's own Buffer (moving contents within
+	// the element); the result must be what an independent copy of those octets would give
+	if p.argT.Kind() == reflect.Slice && e.kind == "buf" {
+		for _, size := range sizes {
+			room := size - a.R0
+			if a.N >= 0 {
+				room = (a.N + 7) / 8
+			}
+			prior := make([]byte, size)
+			for i := range prior {
+				prior[i] = byte(0x14 + i)
+			}
+			for _, n := range []int{room, room - 1, 2} {
+				if n < 1 {
+					continue
+				}
+				for off := 0; off+n <= size; off++ {
+					arg := append([]byte{}, prior[off:off+n]...)
+					c09AliasOff = off
+					evals++
+					c09Exec(c, p, prior, 0x33, uint16(size), arg, func() c09Case {
+						return c09Case{Type: p.t.Name, Field: p.field, Ann: p.annText, Prior: hexs(prior), Iei: 0x33, Len: uint16(size), ArgHex: hexs(arg), Alias: off + 1}
+					})
+					c09AliasOff = -1
+				}
+			}
+		}
+	}
 	// correlated priors: some *other* part of the element already holds exactly the octets of the value being set while
 	// the field itself holds something else (a setter that compares or copies against the wrong field shows only then)
 	if a.N >= 0 {
@@ -991,7 +1029,7 @@ func init() {
 		ID: "C09", Level: "exploration", Run: c09Run,
 		Shards: func(string) int { return 16 },
 		Rule: func(tier string) string {
-			return "every Get/Set pair of every nasType element (registry generated from the current tree) x prior contents x argument values: single-octet fields over all 256 priors of the host octet x argument values (all 256 in thorough) with the other octets in {00,FF,A5}; multi-octet bit fields over all field values x host-octet priors (all 2^16 in thorough); copy fields and INF fields over fill/position patterns and short/equal/long arguments; correlated priors (every other position of the element already holding exactly the octets of the value being set while the field holds their complement); oracle computed from the pinned annotation only (Get = annotated bits; Set changes exactly those bits; Iei/Len/other bits and storage length unchanged). Then the mask helper GetBitMask over every (ub, lb) in every ordered pair of calls, and a second pass over the accessors in reverse order (an accessor must not depend on which accessors ran before it). The DNN value accessor (label form): 6 prior values (installed by SetDNN or like a decoder) x ~900 new values built from 1..3 labels of lengths {0,1,3,30,61..64,97..101}: afterwards the element either holds exactly the new value's labels with the matching length (and GetDNN returns the value) or is exactly as before (a refused set changes nothing); values with labels of 1..62 octets and at most 100 octets in label form must be accepted. A case is (accessor, prior contents, argument); distinct_nontrivial counts accessor pairs exercised."
+			return "every Get/Set pair of every nasType element (registry generated from the current tree) x prior contents x argument values: single-octet fields over all 256 priors of the host octet x argument values (all 256 in thorough) with the other octets in {00,FF,A5}; multi-octet bit fields over all field values x host-octet priors (all 2^16 in thorough); copy fields and INF fields over fill/position patterns and short/equal/long arguments; aliased arguments (slice setters given every window of the element's own Buffer); correlated priors (every other position of the element already holding exactly the octets of the value being set while the field holds their complement); oracle computed from the pinned annotation only (Get = annotated bits; Set changes exactly those bits; Iei/Len/other bits and storage length unchanged). Then the mask helper GetBitMask over every (ub, lb) in every ordered pair of calls, and a second pass over the accessors in reverse order (an accessor must not depend on which accessors ran before it). The DNN value accessor (label form): 6 prior values (installed by SetDNN or like a decoder) x ~900 new values built from 1..3 labels of lengths {0,1,3,30,61..64,97..101}: afterwards the element either holds exactly the new value's labels with the matching length (and GetDNN returns the value) or is exactly as before (a refused set changes nothing); values with labels of 1..62 octets and at most 100 octets in label form must be accepted. A case is (accessor, prior contents, argument); distinct_nontrivial counts accessor pairs exercised."
 		},
 		Assumptions: []string{
 			"the accessor annotations (pinned in mc/spec/accessors.json) are the documented layout; their agreement with the TS 24.501 figures is assumed",
